@@ -2,13 +2,23 @@
 //!
 //! `h <kind> <op> <op> ...`   one multi-treap history (kind 0 = lazy-add item, 1 = assign/add item,
 //!                             2 = positional-hash item: order-sensitive aggregate, lazy add)
-//!     N            new empty treap                      F:v:p        from_item (priority p, or `n` = keep the generator's)
+//!     N            new empty treap (Treap::new)         F:v:p[:ms]   from_item (priority p, or `n` = keep the generator's)
+//!     D            new empty treap (Treap::default)
 //!     M:i:j        merge treaps i and j                 A:i:k        split_at
-//!     B:i:c        split_by (elem < c)                  I:i:k:v:p    insert_at
+//!     B:i:c        split_by (elem < c)                  I:i:k:v:p[:ms]   insert_at
 //!     R:i:k        remove_at                            U:i:a:c / U:i:s:c   root_mut().modify(add c / set c)
-//!     V:i:k:j:k2:p   move: `let it = treaps[i].remove_at(k); treaps[j].insert_at(k2, it)` — the item OBJECT that
-//!                    remove_at returned is inserted (i == j allowed; skipped unless both are live; priority p as for I)
+//!     V:i:k:j:k2:p[:ms]   move: `let mut it = treaps[i].remove_at(k); <ms>; treaps[j].insert_at(k2, it)` — the item
+//!                    OBJECT that remove_at returned is inserted (i == j allowed; skipped unless both are live; priority
+//!                    p as for I)
 //!     f:i l:i C:i S:i G:i    first, last, collect, size, root aggregate
+//!     Mn:i:j An:i:k Bn:i:c Cn:i   the same as M A B C, but through the public building blocks: `t.root` is taken out
+//!                    and handed to TreapNode::{merge, split_at, split_by, collect_into} (collect_into appends to a
+//!                    vector that already holds an item), the results are put into the `root` field of new treaps
+//!   `ms` (optional) = modifications that the CALLER applies to the item while it is outside every treap, before
+//!   from_item / insert_at gets it: comma-separated `a<c>` (add c) / `s<c>` (set c), e.g. `s9,a1`.  With `ms` the item
+//!   enters the treap with a pending tag (a pre-modified fresh item; remove_at + modify + insert_at = move-and-update).
+//!   S, C and G also call `is_empty()`; when it disagrees with what they see (size 0 / nothing collected / no root) the
+//!   token is `!is_empty` instead of the value.
 //!   Treaps live in a vector; merge/split remove their operands and append the results (an operation naming a
 //!   missing treap is skipped and prints `x`).  The `priority` of every node created with a numeric `p` is
 //!   overwritten through the public field, so that the Coq model sees the same priorities.
@@ -28,7 +38,7 @@ enum Md {
     Set(i64),
 }
 
-trait HItem: TreapItem + TreapItemSized + Sized + 'static {
+trait HItem: TreapItem + TreapItemSized + Sized + Default + 'static {
     fn mk(v: i64) -> Self;
     fn modify(&mut self, m: Md);
     fn elem(&self) -> i64;
@@ -37,6 +47,7 @@ trait HItem: TreapItem + TreapItemSized + Sized + 'static {
 }
 
 /// the `ItemSized` of rlib/treap/tests/tests.rs over i64 (no wrapping: values stay small)
+#[derive(Default)]
 struct ItemSized {
     x: i64,
     sm: i64,
@@ -96,6 +107,7 @@ impl HItem for ItemSized {
 }
 
 /// assign-or-add: the pending tag is the function  e -> (set or e) + add ; modifications do not commute
+#[derive(Default)]
 struct ItemAA {
     x: i64,
     sm: i64,
@@ -184,6 +196,7 @@ impl HItem for ItemAA {
 const HP: i64 = 65521;
 const HB: i64 = 30011;
 
+#[derive(Default)]
 struct ItemHash {
     x: i64,
     sz: usize,
@@ -249,8 +262,41 @@ impl HItem for ItemHash {
     }
 }
 
-fn node<I: HItem>(v: i64, pr: &str) -> Treap<I> {
-    node_of(I::mk(v), pr)
+/// `a<c>` / `s<c>` separated by commas (absent or empty: nothing)
+fn parse_mods(s: Option<&&str>) -> Vec<Md> {
+    let mut out = Vec::new();
+    if let Some(s) = s {
+        for t in s.split(',').filter(|t| !t.is_empty()) {
+            let c: i64 = p(&t[1..]);
+            out.push(if t.starts_with('s') { Md::Set(c) } else { Md::Add(c) });
+        }
+    }
+    out
+}
+
+/// a freshly made item that the caller modified before handing it over
+fn made<I: HItem>(v: i64, ms: &[Md]) -> I {
+    let mut it = I::mk(v);
+    for m in ms {
+        it.modify(*m);
+    }
+    it
+}
+
+/// a treap around a root obtained from the building blocks (only the public `root` field is used)
+fn wrap<I: HItem>(root: Option<Box<TreapNode<I>>>) -> Treap<I> {
+    let mut t = Treap::new();
+    t.root = root;
+    t
+}
+
+/// S / C / G: `is_empty()` must agree with what the observation sees
+fn empty_agrees<I: HItem>(t: &Treap<I>, seen_empty: bool, tok: String) -> String {
+    if t.is_empty() == seen_empty {
+        tok
+    } else {
+        "!is_empty".into()
+    }
 }
 
 fn node_of<I: HItem>(item: I, pr: &str) -> Treap<I> {
@@ -303,32 +349,68 @@ fn history<I: HItem>(toks: &[&str]) -> String {
                 ts.push(Treap::new());
                 "u".into()
             }
-            "F" => {
-                ts.push(node::<I>(p(f[1]), f[2]));
+            "D" => {
+                ts.push(Treap::default());
                 "u".into()
             }
-            "M" => match take2(&mut ts, idx(1), idx(2)) {
+            "F" => {
+                ts.push(node_of(made::<I>(p(f[1]), &parse_mods(f.get(3))), f[2]));
+                "u".into()
+            }
+            "M" | "Mn" => match take2(&mut ts, idx(1), idx(2)) {
                 Some((a, b)) => {
-                    ts.push(Treap::merge(a, b));
+                    if f[0] == "M" {
+                        ts.push(Treap::merge(a, b));
+                    } else {
+                        ts.push(wrap(TreapNode::merge(a.root, b.root)));
+                    }
                     "u".into()
                 }
                 None => "x".into(),
             },
-            "A" | "B" => {
+            "A" | "B" | "An" | "Bn" => {
                 let i = idx(1);
                 if i >= ts.len() {
                     "x".into()
                 } else {
                     let t = ts.remove(i);
-                    let (a, b) = if f[0] == "A" {
-                        t.split_at(p::<usize>(f[2]))
-                    } else {
-                        let c: i64 = p(f[2]);
-                        t.split_by(|it| it.elem() < c)
+                    let (a, b) = match f[0] {
+                        "A" => t.split_at(p::<usize>(f[2])),
+                        "An" => {
+                            let (a, b) = TreapNode::split_at(t.root, p::<usize>(f[2]));
+                            (wrap(a), wrap(b))
+                        }
+                        "B" => {
+                            let c: i64 = p(f[2]);
+                            t.split_by(|it| it.elem() < c)
+                        }
+                        _ => {
+                            let c: i64 = p(f[2]);
+                            let (a, b) = TreapNode::split_by(t.root, |it: &I| it.elem() < c);
+                            (wrap(a), wrap(b))
+                        }
                     };
                     ts.push(a);
                     ts.push(b);
                     "u".into()
+                }
+            }
+            "Cn" => {
+                let i = idx(1);
+                if i >= ts.len() {
+                    "x".into()
+                } else {
+                    // collect_into appends: the vector already holds an item
+                    let sentinel = I::mk(424242);
+                    let mut v: Vec<&I> = vec![&sentinel];
+                    if let Some(root) = ts[i].root.as_mut() {
+                        root.collect_into(&mut v);
+                    }
+                    if v[0].elem() != 424242 {
+                        "!collect_into".into()
+                    } else {
+                        format!("c:{}", v[1..].iter().map(|it| it.elem().to_string()).collect::<Vec<_>>().join(","))
+                    }
                 }
             }
             "I" => {
@@ -336,7 +418,8 @@ fn history<I: HItem>(toks: &[&str]) -> String {
                 if i >= ts.len() {
                     "x".into()
                 } else {
-                    insert_with_priority(&mut ts[i], p::<usize>(f[2]), p(f[3]), f[4]);
+                    let it = made::<I>(p(f[3]), &parse_mods(f.get(5)));
+                    insert_item_with_priority(&mut ts[i], p::<usize>(f[2]), it, f[4]);
                     "u".into()
                 }
             }
@@ -361,8 +444,11 @@ fn history<I: HItem>(toks: &[&str]) -> String {
                     let k: usize = p(f[2]);
                     let t = &mut ts[i];
                     match vh::guarded(|| t.remove_at(k)) {
-                        Some(it) => {
+                        Some(mut it) => {
                             let r = format!("r:{}", it.dump().replace(' ', ","));
+                            for m in parse_mods(f.get(6)) {
+                                it.modify(m);
+                            }
                             insert_item_with_priority(&mut ts[j], p::<usize>(f[4]), it, f[5]);
                             r
                         }
@@ -389,6 +475,7 @@ fn history<I: HItem>(toks: &[&str]) -> String {
                     "x".into()
                 } else {
                     let t = &mut ts[i];
+                    let was_empty = t.is_empty();
                     match f[0] {
                         "f" => match t.first() {
                             Some(it) => format!("e:{}", it.elem()),
@@ -398,14 +485,20 @@ fn history<I: HItem>(toks: &[&str]) -> String {
                             Some(it) => format!("e:{}", it.elem()),
                             None => "e:none".into(),
                         },
-                        "C" => format!(
-                            "c:{}",
-                            t.collect().iter().map(|it| it.elem().to_string()).collect::<Vec<_>>().join(",")
-                        ),
-                        "S" => format!("s:{}", t.size()),
+                        "C" => {
+                            let v = t.collect();
+                            let tok = format!("c:{}", v.iter().map(|it| it.elem().to_string()).collect::<Vec<_>>().join(","));
+                            let seen = v.is_empty();
+                            if was_empty == seen {
+                                tok
+                            } else {
+                                "!is_empty".into()
+                            }
+                        }
+                        "S" => empty_agrees(t, t.size() == 0, format!("s:{}", t.size())),
                         _ => match t.root() {
-                            Some(it) => format!("g:{}", it.agg()),
-                            None => "g:none".into(),
+                            Some(it) => empty_agrees(t, false, format!("g:{}", it.agg())),
+                            None => empty_agrees(t, true, "g:none".into()),
                         },
                     }
                 }
@@ -432,13 +525,12 @@ fn history<I: HItem>(toks: &[&str]) -> String {
 
 /// `Treap::insert_at` calls `TreapNode::new` itself, so the priority of the new node cannot be overwritten
 /// before `merge` looks at it.  With a native priority (`n`) the real `insert_at` runs (the plugin predicts the
-/// generator's draws); with an injected priority the body of `insert_at` is replayed through the public API
-/// (split_at, from_item + public priority field, merge, merge).
-fn insert_with_priority<I: HItem>(t: &mut Treap<I>, pos: usize, v: i64, pr: &str) {
-    insert_item_with_priority(t, pos, I::mk(v), pr)
-}
-
-/// the same for an item object that already exists (the one `remove_at` returned): it is handed over as it is
+/// generator's draws: every node creation of the line draws once, also when the field is overwritten afterwards, so
+/// the plugin can choose the injected priorities of the OTHER nodes relative to the draw of a native insert and
+/// steer the real `insert_at` into every rank pattern, ties included); with an injected priority the body of
+/// `insert_at` is replayed through the public API (split_at, from_item + public priority field, merge, merge).
+/// The item is whatever the caller holds: freshly made, made and modified, or the object `remove_at` returned
+/// (modified or not); it is handed over as it is.
 fn insert_item_with_priority<I: HItem>(t: &mut Treap<I>, pos: usize, item: I, pr: &str) {
     if pr == "n" {
         t.insert_at(pos, item);
